@@ -353,7 +353,7 @@ class Registry(Mapping[Any, 'LogicType'], abcs.Copyable):
                     add(other)
             if len(result) == length:
                 break
-        result.remove(logic)
+        result.discard(logic)
         result.sort()
         return qsetf(result)
 
